@@ -89,6 +89,20 @@ def fromRaw (raw : Bytes) : Py (Option ReservedCfdpMessage) := do
   let mu ← MessageToUserTlv.unpack raw
   toReservedMsgTlv mu
 
+/-- optional flag `"lenient": true`: the input is a truncated message for which the property allows
+    either refusal with `ValueError` or whatever the decoder makes of the octets that are there
+    (membership in the allowed set, DESIGN 3.2); only an undocumented error is then a difference -/
+def isLenient (j : Json) : Bool :=
+  match getBool j "lenient" with
+  | .ok b => b
+  | .error _ => false
+
+def lenientJ (lenient : Bool) (r : Json) : Json :=
+  if !lenient then r
+  else match r.getObjVal? "err" with
+    | .ok e => if e == js "value" then obj [("ok", obj [("lenient", jb true)])] else r
+    | .error _ => obj [("ok", obj [("lenient", jb true)])]
+
 def ops : List (String × Handler) := [
   ("rsv_is_reserved", fun j => do
       pure (res (fun (m : MessageToUserTlv) => obj [("reserved", jb m.isReservedCfdpMessage), ("value", jh m.value)])
@@ -113,16 +127,16 @@ def ops : List (String × Handler) := [
       | .ok none => pure (obj [("ok", obj [("reserved", jb false)])])
       | .ok (some r) => do
         let g ← getter name r
-        pure (res (fun x => obj [("reserved", jb true), ("res", x)]) g)),
+        pure (lenientJ (isLenient j) (res (fun x => obj [("reserved", jb true), ("res", x)]) g))),
   ("rsv_view", fun j => do
       let raw ← getHex j "raw"
-      pure (res id (do
+      pure (lenientJ (isLenient j) (res id (do
         let r ← fromRaw raw
         match r with
         | none => pure (obj [("reserved", jb false)])
         | some r => do
           let v ← viewJ r
-          pure (obj [("reserved", jb true), ("view", v)])))),
+          pure (obj [("reserved", jb true), ("view", v)]))))),
   ("rsv_new", fun j => do
       let r := ReservedCfdpMessage.new (← getInt j "msg_type") (← getHex j "value")
       pure (res id (do
